@@ -1105,23 +1105,41 @@ def _real_call(prop, op):
         return "attribute-error"
 
 
-def _step_agree(real, model, errs, op, tol, mu):
-    """None = agree, "skip" = incomparable (estimate within rounding noise of tol), else a description"""
+def _date_noise(bodies, op):
+    """the real code rounds every stage date to whole microseconds (`y_n_prime.date += step * c` is timedelta arithmetic), the model
+    uses t + c h exactly: a body moving at speed w is displaced by up to w x 0.5 us, its attraction mu/d^2 changes by 2 mu w 0.5e-6 / d^3,
+    the stage positions by h^2 times that.  Bound (x10) of the resulting change of the embedded estimate, in metres."""
+    y = op.get("y")
+    if y is None:
+        return 0.0
+    tot = 0.0
+    for b in bodies:
+        w = math.sqrt(sum(x * x for x in getattr(b, "vel", (0.0, 0.0, 0.0))))
+        if w:
+            d = max(1e5, math.sqrt(sum((p_ - q_) ** 2 for p_, q_ in zip(b.pos, y[:3]))))
+            tot += 2 * float(getattr(b, "μ")) * w * 0.5e-6 / d ** 3
+    return 10 * tot * op["h"] ** 2
+
+
+def _step_agree(real, model, errs, op, tol, mu, extra=0.0):
+    """None = agree, "skip" = incomparable (estimate within rounding noise of tol), else a description.
+    `extra`: further absolute noise of the estimate (`_date_noise`)"""
     r_, v_ = op["rv"]
-    noise = 2e-16 * abs(op["h"]) * v_
+    noise = 2e-16 * abs(op["h"]) * v_ + extra
     if any(abs(e - tol) <= noise for e in errs):
         return "skip"
     if isinstance(real, str) or isinstance(model, str):
         return None if real == model else "outcome"
     dh = abs(model[0] - real[0])
     shrunk = abs(real[0]) < abs(op["h"])
-    allowed = (1e-6 + abs(real[0]) * (1e-9 + 2e-16 * abs(op["h"]) * v_ / tol)) if shrunk else 0.0
+    allowed = (1e-6 + abs(real[0]) * (1e-9 + (2e-16 * abs(op["h"]) * v_ + extra) / tol)) if shrunk else 0.0
     if dh > allowed:
         return "accepted step size"
     for i, (a, b) in enumerate(zip(real[1:], model[1:])):
         sc = r_ if i < 3 else v_
         rate = v_ if i < 3 else mu / r_ ** 2
-        if not core.close(a, b, rtol=1e-11, atol=1e-11 * sc + 2 * dh * rate, scale=max(abs(a), abs(b))):
+        if not core.close(a, b, rtol=1e-11, atol=1e-11 * sc + 2 * dh * rate + (extra if i < 3 else extra / max(abs(op["h"]), 1.0)),
+                          scale=max(abs(a), abs(b))):
             return f"component {i}"
     return None
 
@@ -1178,7 +1196,7 @@ def corr_histories(ctx, out, mu):
                 mtxt, _, e = mrep.partition(" | ")
                 errs = [b2f(t) for t in e.split()] if kind == "mk" else []
                 mval = mtxt if (kind == "rb" or not mtxt[:1].isdigit()) else [b2f(t) for t in mtxt.split()]
-                why = (None if real == mval else "tableau") if kind == "rb" else _step_agree(real, mval, errs, op, prop.tol, mu)
+                why = (None if real == mval else "tableau") if kind == "rb" else _step_agree(real, mval, errs, op, prop.tol, mu, extra=_date_noise(prop.bodies, op))
                 if why == "skip":
                     out.tally("step-borderline-skipped")
                 elif why is not None:
